@@ -514,7 +514,7 @@ def render_cli_source(s, stripped=False, keep=None):
 
 def cli_run(tier, seed):
     t0 = time.time()
-    maxops = 4 if tier == "quick" else 5
+    maxops = 3 if tier == "quick" else 4
     res = run_tlc("Cli.tla", "Cli.cfg", {"MAXOPS": str(maxops)}, workers=4, metaname="cli")
     if not res["ok"]:
         raise ToolError("Cli.tla violated at specification level:\n" + res["out"][-2000:])
@@ -552,15 +552,20 @@ def cli_run(tier, seed):
         o = json.loads(l)
         if o["why"]:
             findings.append({"key": it["id"], "what": o["why"][:600], "source": it["src"], "expected_enum": it["expect"], "stdout_head": it["stdout"][:400]})
-    # file histories
+    # file histories (the source carries a kept attribute whose string literal contains a line break, so that the
+    # output has several lines and "a file that holds only the first line" is a proper prefix at line granularity)
     src = render_cli_source({"first": ["Debug", "Logos"], "trailing": False, "second": [], "extras": "none", "nlogos": 1})
+    src = src.replace("pub enum Tok {", '#[doc = "two\nlines"]\npub enum Tok {')
     with open(inp, "w") as f:
         f.write(src)
     p = subprocess.run([cli, inp], capture_output=True, text=True)
     current = p.stdout[:-1] if p.stdout.endswith("\n") else p.stdout
-    outp = os.path.join(wd, "out.rs")
-    n_steps = 0
-    for h in files:
+    if p.returncode != 0 or current.count("\n") < 1 or len(current) < 40:
+        raise ToolError("logos-cli output for the file histories is not a multi-line text: exit %d, %r" % (p.returncode, current[:200]))
+
+    def one_history(arg):
+        wk, h = arg
+        outp = os.path.join(wd, "out-%d.rs" % wk)
         if os.path.exists(outp):
             os.remove(outp)
         trail = []
@@ -575,23 +580,42 @@ def cli_run(tier, seed):
                 if os.path.exists(outp):
                     with open(outp, "a") as f:
                         f.write("// tampered\n")
+            elif op in ("cutline", "chop", "flip", "empty"):
+                if os.path.exists(outp):
+                    data = open(outp, "rb").read()
+                    if op == "cutline":
+                        data = data.split(b"\n")[0] + (b"\n" if b"\n" in data else b"")
+                    elif op == "chop":
+                        data = data[:-10]
+                    elif op == "flip":
+                        k = len(data) // 2
+                        data = (data[:k] + (b"#" if data[k:k + 1] != b"#" else b"%") + data[k + 1:]) if data else b"#"
+                    else:
+                        data = b""
+                    with open(outp, "wb") as f:
+                        f.write(data)
             elif op == "crlf":
                 if os.path.exists(outp) and open(outp, newline="").read() == current:
                     with open(outp, "w", newline="") as f:
                         f.write(current.replace("\n", "\r\n") + "\r\n")
+            elif op == "addeol":
+                if os.path.exists(outp) and open(outp, newline="").read() == current:
+                    with open(outp, "w", newline="") as f:
+                        f.write(current + "\n")
             elif op == "delete":
                 if os.path.exists(outp):
                     os.remove(outp)
             after = open(outp, "rb").read() if os.path.exists(outp) else None
             if after is None:
                 st = "absent"
-            elif after.decode() == current:
+            elif after.decode(errors="replace") == current:
                 st = "current"
-            elif after.decode().replace("\r\n", "\n").rstrip("\n") == current.rstrip("\n"):
+            elif after.decode(errors="replace") == current + "\n":
+                st = "eol"
+            elif b"\r\n" in after and after.decode(errors="replace").replace("\r\n", "\n").rstrip("\n") == current.rstrip("\n"):
                 st = "crlf"
             else:
                 st = "stale"
-            n_steps += 1
             trail.append((op, rc, st))
             bad = None
             if op in ("write", "check") and (rc != 0) != (exit_exp != 0):
@@ -601,8 +625,21 @@ def cli_run(tier, seed):
             elif op == "check" and before != after:
                 bad = "--check modified the file"
             if bad:
-                findings.append({"key": "files:" + ">".join(o[0] for o in h["hist"][: len(trail)]), "what": "after %s: %s" % (trail, bad), "source": src})
-                break
+                return len(trail), {"key": "files:" + ">".join(o[0] for o in h["hist"][: len(trail)]), "what": "after %s: %s" % (trail, bad), "source": src}
+        return len(trail), None
+
+    from concurrent.futures import ThreadPoolExecutor
+    nthreads = 8
+    n_steps = 0
+
+    def shard(wk):
+        return [one_history((wk, h)) for h in files[wk::nthreads]]
+    with ThreadPoolExecutor(nthreads) as ex:
+        for part in ex.map(shard, range(nthreads)):
+            for n, f in part:
+                n_steps += n
+                if f:
+                    findings.append(f)
     shutil.rmtree(wd, ignore_errors=True)
     samples = [{"source": s["src"], "expected_stripped": s["expect"]} for s in items[:: max(1, len(items) // 3)][:3]] + [{"history": h["hist"]} for h in files[:2]]
     return {"tlc": {k: res[k] for k in ("states", "distinct", "wall")}, "strip_cases": len(strips), "histories": len(files), "history_steps": n_steps,
